@@ -48,8 +48,32 @@ def fanout_block(rw):
     consts = rw.sample([0, 0x20, 0x40, 0x60, 0x80, 0xa0, 0xc0], n)
     items = []
     dead_hash = [("PUSH", "20"), ("PUSH", "%x" % rw.choice([0, 0x20, 0x40])), ("KECCAK256", None), ("POP", None)]
-    kind = rw.choice(["load-stores", "store-loads", "stores-load", "mixed"])
-    if kind == "load-stores":
+    kind = rw.choice(["load-stores", "store-loads", "stores-load", "mixed", "shared-stores-load", "chase", "chase"])
+    if kind == "chase":
+        # pointer chasing (each load reads the address the previous one returned, every result stays alive) followed by
+        # stores to unrelated addresses: the store has several indirect predecessors, and they contain one another
+        items += [("DUP%d" % rw.randrange(1, 3), None), (ld, None)]
+        for _ in range(rw.choice([1, 1, 2])):
+            items += [("DUP1", None), (ld, None)]
+        if rw.random() < 0.3:
+            items += dead_hash
+        for _ in range(rw.choice([1, 1, 2])):
+            items += rw.choice([[("DUP%d" % rw.randrange(4, 6), None), ("DUP%d" % rw.randrange(4, 6), None), (st, None)],
+                                [("DUP4", None), ("PUSH", "%x" % rw.choice(consts)), (st, None)], [("SWAP3", None), ("SWAP1", None), ("SWAP2", None), (st, None)]])
+        return items + rw.choice([[], [("PUSH", "20")]]) + [("PUSH", "%x" % rw.randrange(1, 99)), ("JUMP", None)]
+    if kind == "shared-stores-load":
+        # several stores of one computed value (or of values that share a sub-term), then an access that depends on all of
+        # them: its indirect predecessors overlap, so the order in which they are visited matters for what is counted twice
+        items += [("DUP1", None), ("PUSH", "1"), ("ADD", None)]
+        for c in consts:
+            if rw.random() < 0.5:
+                items += [("DUP1", None), ("PUSH", "%x" % c), (st, None)]
+            else:
+                items += [("DUP1", None), ("PUSH", "%x" % rw.choice([2, 3])), ("MUL", None), ("PUSH", "%x" % c), (st, None)]
+        if rw.random() < 0.5:
+            items += dead_hash
+        items += [("DUP2", None), (ld, None)] + ([("DUP3", None), (ld, None)] if rw.random() < 0.5 else [])
+    elif kind == "load-stores":
         items += [("DUP%d" % rw.randrange(1, 4), None), (ld, None)]
         if rw.random() < 0.5:
             items += dead_hash
